@@ -200,7 +200,7 @@ PROPS["C04"] = {
 PROPS["C09"] = {
     "level": "proof",
     "budget": {"quick": [("c09", 150)], "thorough": [("c09", 20000)], "search": [("c09", 40000)]},
-    "rule": "histories with repetitions: games biased towards shuffling pieces back and forth (0/1/2/3 earlier occurrences of each candidate successor), several position commands in a row; after each command every successor of the current position is asked 'draw by repetition?' (hook verif_is_repetition_draw on the engine's own searcher) vs model vs a spec that counts positions in the history given with the LAST position command",
+    "rule": "histories with repetitions: games biased towards shuffling pieces back and forth (0/1/2/3 earlier occurrences of each candidate successor), several position commands in a row; after each command every successor of the current position is asked 'draw by repetition?' (hook verif_is_repetition_draw on the engine's own searcher) vs model vs a spec that counts positions in the history given with the LAST position command; long games in which the two earlier occurrences lie more than 100 plies back; after the last position command of a case a depth-1 SEARCH on the engine's own searcher, its value judged against max over moves of (0 for a third-occurrence successor, else minus the quiescence value), and depth 2-3 searches with the history in place tied to the model incl. node counts",
     "trusted_base": [KERNEL, AXIOMS, TIE, HASHINJ],
     "assumptions": [HASHINJ, "results cached before the history existed are outside the property (as stated in it)"],
     "finding_key": lambda sf: None,
